@@ -215,6 +215,28 @@ def h_int_history(c, f, g, rx, ry):
     c.prove(sharedsym.same(warm[1], cold[1]), "g(y)-after-f(x)==g(y)-on-cold-state", info={"f": f, "g": g})
 
 
+# ---------------------------------------------------------------------------------- origin table histories
+def h_origin_history(c, fn):
+    """segment_to_quintant / quintant_to_segment: the call for (face2, x2) after a call for (face1, x1) equals the call
+    on the restored cold state (all 12 x 12 face pairs by forking over the real origins table, x symbolic 0..4)."""
+    import a5.core.origin as og
+    snap = shared.snapshot_state()
+    f1 = c.int("face1", 0, 11)
+    f2 = c.int("face2", 0, 11)
+    o1, o2 = og.origins[f1], og.origins[f2]
+    x1 = c.int("x1", 0, 4)
+    x2 = c.int("x2", 0, 4)
+    func = getattr(og, fn)
+    try:
+        func(x1, o1)
+        warm = func(x2, o2)
+        shared.restore_state(snap)
+        cold = func(x2, o2)
+    finally:
+        shared.restore_state(snap)
+    c.prove(sx.And(warm[0] == cold[0], warm[1] == cold[1]), "origin-table:second-call==cold-call", info={"fn": fn})
+
+
 # ---------------------------------------------------------------------------------- singleton two-call histories
 def h_singleton_history(c, f, g):
     """g(y) on the shared module-level singleton after f(x) (independent symbolic angles) vs g(y) on a fresh
@@ -419,6 +441,8 @@ def jobs(tier, seed):
         pairs = [(i, j) for i in range(n) for j in range(n) if (i + j) % 3 == 0 or i == j]
     for i, j in pairs:
         js.append(Job("api-history[%d,%d]" % (i, j), "h_api_history", {"i": i, "j": j}, {"logic": None}, weight=1))
+    for fn in ("segment_to_quintant", "quintant_to_segment"):
+        js.append(Job("origin-history[%s]" % fn, "h_origin_history", {"fn": fn}, {"max_paths": 20000}, weight=6))
     for kind in ("hilbert", "lonlat_to_cell"):
         js.append(Job("long-history[%s]" % kind, "h_long_history", {"kind": kind, "seed": seed}, {"logic": None}, weight=20))
     for f in ("forward", "inverse"):
@@ -557,6 +581,19 @@ print("ok")
 """ % (na, aa, nb, ab)
         script = "SRC = " + repr(script) + "\n" + script
         return {"script": script, "description": "API history", "candidate": True}
+    if f == "h_origin_history":
+        return {"script": _PRE + """
+from a5.core import origin as og
+import importlib
+fn = %r
+f1, f2, x1, x2 = %d, %d, %d, %d
+getattr(og, fn)(x1, og.origins[f1])
+warm = getattr(og, fn)(x2, og.origins[f2])
+cold = subprocess.run([sys.executable, "-c", "from a5.core import origin as og; print(repr(og.%%s(%%d, og.origins[%%d])))" %% (fn, x2, f2)],
+                      capture_output=True, text=True).stdout.strip()
+if repr(warm) != cold: bad("history-dependent:%%s:faces=%%d,%%d" %% (fn, f1, f2))
+print("ok")
+""" % (p["fn"], inp["face1"], inp["face2"], inp.get("x1", 0), inp.get("x2", 0)), "description": "origin table history"}
     if f == "h_long_history":
         body = _PRE + """
 import os
